@@ -81,6 +81,54 @@ def item_name(item):
     return str(getattr(item, "name", None))
 
 
+def canon_json(x):
+    return json.dumps(x, sort_keys=True, ensure_ascii=False, default=str)
+
+
+def err_sig(item):
+    e = item.error
+    return None if e is None else "%s: %s" % (type(e).__name__, str(getattr(e, "str", e))[:200])
+
+
+def same_item(a, b, thy):
+    """`a` and `b` are the same item as far as anything observable goes: `Item.__eq__` (which is
+    what monitor.check_theory uses, but which ignores whatever a class forgets to list), the file
+    form `export_json()` and the editor/display form `get_display()`.  Items that carry an error
+    compare the error by class and message (exception objects are never `==`).  Returns None or a
+    description of the first difference."""
+    from kernel import theory
+    from syntax.settings import global_setting
+    if err_sig(a) != err_sig(b):
+        return "error differs: %s / %s" % (err_sig(a), err_sig(b))
+    if a.error is None and not (a == b):
+        return "!= item (Item.__eq__)"
+    theory.thy = thy
+    ja, jb = canon_json(a.export_json()), canon_json(b.export_json())
+    if ja != jb:
+        return "export_json() differs: %s / %s" % (first_diff(ja, jb))
+    with global_setting(unicode=True, highlight=False, line_length=None):
+        da, db = canon_json(canon_display(a.get_display())), canon_json(canon_display(b.get_display()))
+    if da != db:
+        return "get_display() differs: %s / %s" % (first_diff(da, db))
+    return None
+
+
+def canon_display(d):
+    """variable declarations are a dictionary (`vars`): the files are written with sort_keys, so
+    their order is not part of the item"""
+    if isinstance(d, dict) and isinstance(d.get('vars'), str):
+        d = dict(d)
+        d['vars'] = "\n".join(sorted(d['vars'].split("\n")))
+    return d
+
+
+def first_diff(x, y):
+    i = 0
+    while i < min(len(x), len(y)) and x[i] == y[i]:
+        i += 1
+    return x[max(0, i - 30): i + 40], y[max(0, i - 30): i + 40]
+
+
 class ItemRun:
     """What `monitor.check_theory` does for one raw item, plus the extension check and the JSON
     round trip.  `theory.thy` must be the theory just before the item; afterwards it is the theory
@@ -92,6 +140,7 @@ class ItemRun:
         self.status = None        # 'error' | 'ext-raises' | 'extend-fails' | 'accepted'
         self.err = None
         self.defects = []         # (class, detail)
+        self.hazards = []         # (class, detail): accepted definitional item that is not conservative
         self.item = None
         self.exts = None
         self.old_thy = None
@@ -104,11 +153,58 @@ class ItemRun:
             return self._run()
 
     def _run(self):
+        from kernel import theory
         from server import items
         raw = self.raw
+        self.types_before = set(theory.thy.get_data("type_sig"))     # Datatype.parse itself adds the type
         item = items.parse_item(copy.deepcopy(raw))
         self.item = item
         return self._rest(item)
+
+    def rejected_roundtrips(self, item):
+        """A rejected item keeps the text it was given (that is what the user has to repair): its
+        file form and its editor form parse back to an item with the same error and the same text."""
+        from kernel import theory
+        from server import items
+        from syntax.settings import global_setting
+        thy0 = copy.copy(theory.thy)
+        try:
+            with global_setting(unicode=True, highlight=False):
+                item.get_display()
+        except Timeout:
+            raise
+        except Exception as e:  # noqa
+            # export_web() shows rejected items too: no editor form at all
+            self.defects.append(("display-rejected", "get_display() of the rejected item raises %s: %s" % (type(e).__name__, str(e)[:120])))
+            theory.thy = thy0
+            return
+        try:
+            js = json.loads(json.dumps(item.export_json(), ensure_ascii=False, sort_keys=True))
+            theory.thy = copy.copy(thy0)
+            item3 = items.parse_item(js)
+            d = same_item(item, item3, copy.copy(thy0))
+            if d is not None:
+                self.defects.append(("json-roundtrip-rejected", "parse_item(export_json()) of the rejected item: " + d))
+        except Timeout:
+            raise
+        except Exception as e:  # noqa
+            self.defects.append(("json-roundtrip-rejected", "raises %s: %s" % (type(e).__name__, str(e)[:160])))
+        try:
+            theory.thy = copy.copy(thy0)
+            with global_setting(unicode=True, highlight=False):
+                edit_item = item.get_display()
+            theory.thy = copy.copy(thy0)
+            item2 = items.parse_edit(edit_item)
+            if item.ty == 'thm':
+                item2.proof, item2.steps, item2.num_gaps = item.proof, item.steps, item.num_gaps
+            d = same_item(item, item2, copy.copy(thy0))
+            if d is not None:
+                self.defects.append(("edit-roundtrip-rejected", "parse_edit(get_display()) of the rejected item: " + d))
+        except Timeout:
+            raise
+        except Exception as e:  # noqa
+            self.defects.append(("edit-roundtrip-rejected", "raises %s: %s" % (type(e).__name__, str(e)[:160])))
+        theory.thy = thy0
 
     def edit_roundtrip_at(self, item, old_thy, new_thy, L, uni):
         """parse_edit(get_display()) with the editor form produced under line_length=L; returns a
@@ -129,8 +225,9 @@ class ItemRun:
                 item2.num_gaps = item.num_gaps
             if item2.error is not None:
                 return "parse_edit(get_display()) fails: %s: %s" % (type(item2.error).__name__, str(item2.error)[:120])
-            if item != item2:
-                return "parse_edit(get_display()) != item"
+            d = same_item(item, item2, new_thy)
+            if d is not None:
+                return "parse_edit(get_display()) " + d
         except Timeout:
             raise
         except Exception as e:  # noqa
@@ -144,7 +241,7 @@ class ItemRun:
         raw = self.raw
         if item.error is not None:
             self.status, self.err = "error", "%s: %s" % (type(item.error).__name__, str(item.error)[:200])
-            # the editor form of a rejected item must still be computable (raw strings are shown)
+            self.rejected_roundtrips(item)
             return self
         try:
             exts = item.get_extension()
@@ -168,6 +265,10 @@ class ItemRun:
             return self
         new_thy = theory.thy
         self.status = "accepted"
+        if item.ty == 'type.ind' and item.name in getattr(self, "types_before", ()):
+            # a second "definition" of an existing type: its induction / distinctness theorems join
+            # (or replace) those of the first one, constants of the old type change their meaning
+            self.hazards.append(("redeclared-type", "the type %s exists already" % item.name))
         for d in check_extensions(new_thy, exts):
             self.defects.append(("ill-typed-extension", d))
         # -- editor round trip, exactly as monitor.check_theory
@@ -183,8 +284,10 @@ class ItemRun:
             if item2.error is not None:
                 self.defects.append(("edit-roundtrip", "parse_edit(get_display()) fails: %s: %s" % (
                     type(item2.error).__name__, str(item2.error)[:160])))
-            elif item != item2:
-                self.defects.append(("edit-roundtrip", "parse_edit(get_display()) != item"))
+            else:
+                d = same_item(item, item2, new_thy)
+                if d is not None:
+                    self.defects.append(("edit-roundtrip", "parse_edit(get_display()) " + d))
         except Timeout:
             raise
         except Exception as e:  # noqa
@@ -208,8 +311,10 @@ class ItemRun:
             if item3.error is not None:
                 self.defects.append(("json-roundtrip", "parse_item(export_json()) fails: %s: %s" % (
                     type(item3.error).__name__, str(item3.error)[:160])))
-            elif item != item3:
-                self.defects.append(("json-roundtrip", "parse_item(export_json()) != item"))
+            else:
+                d = same_item(item, item3, new_thy)
+                if d is not None:
+                    self.defects.append(("json-roundtrip", "parse_item(export_json()) " + d))
         except Timeout:
             raise
         except Exception as e:  # noqa
@@ -238,6 +343,7 @@ def run_library(ctx, names):
     from logic import basic
     from kernel import theory
     nitems = 0
+    nrej = {}
     for name in names:
         data = basic.load_json_data(name)
         try:
@@ -260,14 +366,27 @@ def run_library(ctx, names):
             ctx.count("library:%s:%s" % (ty, r.status))
             ctx.case(("lib", name, idx), nontrivial=(r.status == "accepted" and ty != "header"))
             if r.status == "error":
-                # a library item that does not parse: report (the library is expected to load cleanly)
-                ctx.violation("%s:%s:rejected" % (name, item_name(r.item)),
-                              "library item %s %s of theory %s is rejected: %s" % (ty, item_name(r.item), name, r.err),
-                              {"stream": "library", "theory": name, "index": idx, "raw": raw})
+                # The property does not say that a library item has to be ACCEPTED (it speaks about what
+                # accepted items generate, and about round trips).  A rejected library item is therefore
+                # no violation; but the extension and acceptance obligations of this item - and of the
+                # items that depend on it - are then not exercised, which is reported as a stream that
+                # no longer checks (once per theory) and counted.
+                nrej[name] = nrej.get(name, 0) + 1
+                if nrej[name] == 1:
+                    ctx.broken("library:c11:rejected-item:%s" % name,
+                               "library item %s %s of theory %s is rejected (%s): its extensions and those of dependent items are not exercised" % (
+                                   ty, item_name(r.item), name, r.err))
             elif r.status in ("ext-raises", "extend-fails"):
+                # an accepted item whose extension cannot be generated, or is refused by the theory it
+                # extends, is not "well-typed over the extended signature"
                 ctx.violation("%s:%s:%s" % (name, item_name(r.item), r.status),
                               "library item %s %s of theory %s: %s (%s)" % (ty, item_name(r.item), name, r.status, r.err),
                               {"stream": "library", "theory": name, "index": idx, "raw": raw})
+            if r.status == "accepted":
+                for cls, detail in definitional_hazards(r.item) + r.hazards:
+                    ctx.violation("%s:%s:%s" % (name, item_name(r.item), cls),
+                                  "library %s item %s of theory %s is not conservative: %s" % (ty, item_name(r.item), name, detail),
+                                  {"stream": "library", "theory": name, "index": idx, "raw": raw, "defect": cls})
             if ty == "def" and r.status == "accepted":
                 for cond in not_a_definition(r.item.name, r.item.type, r.item.prop):
                     ctx.violation("%s:%s:not-a-definition:%s" % (name, item_name(r.item), cond),
@@ -937,6 +1056,107 @@ def long_item(rng, g):
     return "long:theorem", it
 
 
+def adversarial_item(rng, g):
+    """(kind, raw) or (kind, raw, [items processed before it]): unchecked definitional kinds with
+    overlapping / non-exhaustive / non-terminating equations, non-positive occurrences, wrong
+    conclusions; name clashes between theorems, constants and types; attributes that loop"""
+    c = rng.randrange(16)
+    g.bases = [BOOL, NAT]
+    if c == 0:
+        f = g.fresh("fn")
+        v = rng.choice([("0", "0", "(0::nat)", "(1::nat)"), ("n", "(Suc n)", "(0::nat)", "(Suc n)"), ("(Suc n)", "(Suc (Suc m))", "n", "(Suc m + m)")])
+        return "adv:fun:overlap", {"ty": "def.ind", "name": f, "type": "nat => nat",
+                                   "rules": [{"prop": "%s %s = %s" % (f, v[0], v[2])}, {"prop": "%s %s = %s" % (f, v[1], v[3])}]}
+    if c == 1:
+        f = g.fresh("fn")
+        return "adv:fun:overlap-2args", {"ty": "def.ind", "name": f, "type": "nat => nat => bool", "rules": [
+            {"prop": "%s x 0 = true" % f}, {"prop": "%s 0 y = false" % f}, {"prop": "%s (Suc x) (Suc y) = %s x y" % (f, f)}]}
+    if c == 2:
+        f = g.fresh("fn")
+        return "adv:fun:not-exhaustive", {"ty": "def.ind", "name": f, "type": "nat => nat",
+                                          "rules": [{"prop": "%s (Suc (Suc n)) = %s" % (f, g.term(NAT, 1, [("n", NAT)]))}]}
+    if c == 3:
+        f = g.fresh("fn")
+        R = rng.choice([("nat", "Suc (%s n)"), ("bool", "~(%s n)"), ("nat", "%s n + 1")])
+        return "adv:fun:non-terminating", {"ty": "def.ind", "name": f, "type": "nat => %s" % R[0],
+                                           "rules": [{"prop": "%s n = %s" % (f, R[1] % f)}]}
+    if c == 4:
+        f = g.fresh("fn")
+        return "adv:fun:same-equation-twice", {"ty": "def.ind", "name": f, "type": "nat => nat",
+                                               "rules": [{"prop": "%s 0 = 0" % f}, {"prop": "%s 0 = 0" % f}, {"prop": "%s (Suc n) = %s n" % (f, f)}]}
+    if c == 5:
+        p = g.fresh("pr")
+        concl = rng.choice(["true", "(%s m) --> false" % p, "~(%s m)" % p, "m = m", "(%s m) & (%s m)" % (p, p)])
+        return "adv:inductive:conclusion-not-predicate", {"ty": "def.pred", "name": p, "type": "nat => bool", "rules": [
+            {"name": p + "_base", "prop": "%s 0" % p}, {"name": p + "_bad", "prop": "%s n --> %s" % (p, concl)}]}
+    if c == 6:
+        p = g.fresh("pr")
+        prem = rng.choice(["~(%s n)" % p, "((%s n) --> false)" % p, "(!k::nat. ~(%s k))" % p, "((%s n) = false)" % p, "((%s n --> %s (Suc n)) --> false)" % (p, p)])
+        return "adv:inductive:negative-premise", {"ty": "def.pred", "name": p, "type": "nat => bool",
+                                                  "rules": [{"name": p + "_neg", "prop": "%s --> %s n" % (prem, p)}]}
+    if c == 7:
+        d = g.fresh("dt")
+        A = rng.choice(["(%s => bool)" % d, "((%s => nat) => nat)" % d, "(nat => %s => bool)" % d, "((%s => bool) list)" % d])
+        return "adv:datatype:non-positive", {"ty": "type.ind", "name": d, "args": [], "constrs": [
+            {"name": g.fresh("K"), "args": [], "type": d}, {"name": g.fresh("K"), "args": ["f"], "type": "%s => %s" % (A, d)}]}
+    if c == 8:
+        d = g.fresh("dt")
+        return "adv:datatype:positive-function-argument", {"ty": "type.ind", "name": d, "args": [], "constrs": [
+            {"name": g.fresh("K"), "args": [], "type": d}, {"name": g.fresh("K"), "args": ["f"], "type": "(nat => %s) => %s" % (d, d)}]}
+    if c == 9:      # an existing type declared again
+        nm, args = rng.choice([("nat", []), ("nat", ["a"]), ("list", ["a"]), ("list", []), ("bool", []), ("fun", ["a", "b"])])
+        Ts = nm if not args else ("'a %s" % nm if len(args) == 1 else "('a, 'b) %s" % nm)
+        if rng.random() < 0.5:
+            return "adv:clash:type-redeclared", {"ty": "type.ax", "name": nm, "args": args}
+        return "adv:clash:datatype-redeclared", {"ty": "type.ind", "name": nm, "args": args, "constrs": [{"name": g.fresh("K"), "args": [], "type": Ts}]}
+    if c == 10:     # an existing (not overloaded) constant defined / declared again
+        nm, T = rng.choice([("true", "bool"), ("conj", "bool => bool => bool"), ("Suc", "nat => nat"), ("nil", "'a list"), ("equals", "nat => nat => bool")])
+        k = rng.randrange(3)
+        if k == 0:
+            return "adv:clash:constant-redeclared", {"ty": "def.ax", "name": nm, "type": T}
+        if k == 1:
+            return "adv:clash:constant-redefined", {"ty": "def", "name": nm, "type": "bool", "prop": "(%s::bool) <--> false" % nm}
+        return "adv:clash:constant-as-function", {"ty": "def.ind", "name": nm, "type": "nat => nat", "rules": [{"prop": "(%s::nat => nat) n = n" % nm}]}
+    if c == 11:     # a theorem name used twice / a definition whose theorem name is taken
+        nm = g.fresh("c")
+        ax = {"ty": "thm.ax", "name": nm + "_def", "vars": {"x": "nat"}, "prop": "x = x"}
+        k = rng.randrange(4)
+        if k == 0:
+            return "adv:clash:def-theorem-name-taken", {"ty": "def", "name": nm, "type": "nat", "prop": "%s = (0::nat)" % nm}, [ax]
+        if k == 1:
+            return "adv:clash:axiom-twice", dict(ax, prop="x = x + 0"), [ax]
+        if k == 2:
+            return "adv:clash:axiom-named-like-library-theorem", {"ty": "thm.ax", "name": rng.choice(["conjI", "nat_induct", "nat_one_def"]), "vars": {}, "prop": "false"}
+        return "adv:clash:inductive-rule-named-like-library-theorem", {"ty": "def.pred", "name": nm, "type": "nat => bool",
+                                                                       "rules": [{"name": rng.choice(["conjI", "nat_induct"]), "prop": "%s 0" % nm}]}
+    if c == 12:     # the same definitional item twice
+        nm = g.fresh("c")
+        k = rng.randrange(3)
+        if k == 0:
+            it = {"ty": "def", "name": nm, "type": "nat", "prop": "%s = (0::nat)" % nm}
+            return "adv:clash:def-twice", dict(it, prop="%s = (1::nat)" % nm), [it]
+        if k == 1:
+            it = {"ty": "def.ind", "name": nm, "type": "nat => nat", "rules": [{"prop": "%s n = n" % nm}]}
+            return "adv:clash:fun-twice", dict(it, rules=[{"prop": "%s n = Suc n" % nm}]), [it]
+        d = g.fresh("dt")
+        it = {"ty": "type.ind", "name": d, "args": [], "constrs": [{"name": g.fresh("K"), "args": [], "type": d}]}
+        return "adv:clash:datatype-twice", {"ty": "type.ind", "name": d, "args": [], "constrs": [{"name": g.fresh("K"), "args": ["n"], "type": "nat => " + d}]}, [it]
+    if c == 13:     # a constant named like a type / theorem, a type named like a constant
+        k = rng.randrange(3)
+        if k == 0:
+            return "adv:clash:constant-named-like-type", {"ty": "def", "name": "nat", "type": "nat", "prop": "(nat::nat) = 0"}
+        if k == 1:
+            return "adv:clash:type-named-like-constant", {"ty": "type.ind", "name": "Suc", "args": [], "constrs": [{"name": g.fresh("K"), "args": [], "type": "Suc"}]}
+        return "adv:clash:constant-named-like-theorem", {"ty": "def", "name": "conjI", "type": "bool", "prop": "conjI <--> true"}
+    # attributes: rewrite rules that loop, hints on statements of the wrong shape, unknown and repeated attributes
+    env = [("x", NAT), ("y", NAT)]
+    prop, attrs = rng.choice([
+        ("x + y = y + x", ["hint_rewrite"]), ("x = x + 0", ["hint_rewrite"]), ("x + y = x + y", ["hint_rewrite"]),
+        ("(x = y) --> (x = y)", ["hint_backward"]), ("x = y --> y = x", ["hint_forward", "hint_backward"]),
+        ("x = x", ["no_such_attribute"]), ("Suc x = Suc x", ["hint_rewrite", "hint_rewrite"]), ("x = y", ["hint_rewrite", "hint_resolve", "var_induct"])])
+    return "adv:attributes", {"ty": rng.choice(["thm.ax", "thm"]), "name": g.fresh("ax"), "vars": {n: ty_str(T) for n, T in env}, "prop": prop, "attributes": attrs}
+
+
 def other_item(rng, g):
     """axiomatic constants, axioms, theorems with attributes, axiomatic types, headers"""
     g.bases = BASES
@@ -1194,6 +1414,153 @@ def not_a_definition(name, T, prop):
     return bad
 
 
+def sx_term_unify(a, b):
+    """first-order unifier of two term s-expressions whose variables (`v` atoms, by name) are
+    disjoint; constants are rigid, types are ignored, binders must be identical.  dict or None"""
+    sub = {}
+
+    def walk(t):
+        while t[0] == "v" and t[1] in sub:
+            t = sub[t[1]]
+        return t
+
+    def occurs(x, t):
+        t = walk(t)
+        if t[0] == "v":
+            return t[1] == x
+        if t[0] == "ap":
+            return occurs(x, t[1]) or occurs(x, t[2])
+        return False
+
+    def uni(s, t):
+        s, t = walk(s), walk(t)
+        if s[0] == "v" and t[0] == "v" and s[1] == t[1]:
+            return True
+        if s[0] == "v":
+            if occurs(s[1], t):
+                return False
+            sub[s[1]] = t
+            return True
+        if t[0] == "v":
+            return uni(t, s)
+        if s[0] == "ap" and t[0] == "ap":
+            return uni(s[1], t[1]) and uni(s[2], t[2])
+        if s[0] == "c" and t[0] == "c":
+            return s[1] == t[1]
+        return s == t
+    if not uni(a, b):
+        return None
+
+    def resolve(t):
+        t = walk(t)
+        if t[0] == "ap":
+            return ["ap", resolve(t[1]), resolve(t[2])]
+        if t[0] == "ab":
+            return ["ab", "_", t[2], resolve(t[3])]
+        return t
+    return resolve
+
+
+def sx_rename_vars(t, suffix):
+    k = t[0]
+    if k == "v":
+        return ["v", t[1] + suffix, t[2]]
+    if k == "ap":
+        return ["ap", sx_rename_vars(t[1], suffix), sx_rename_vars(t[2], suffix)]
+    if k == "ab":
+        return ["ab", t[1], t[2], sx_rename_vars(t[3], suffix)]
+    return t
+
+
+def type_mentions(T, name):
+    return T.is_tconst() and (T.name == name or any(type_mentions(a, name) for a in T.args))
+
+
+def occurs_in_domain(T, name):
+    """the type `name` occurs to the left of a function arrow somewhere in T"""
+    if not T.is_tconst():
+        return False
+    if T.is_fun():
+        return type_mentions(T.domain_type(), name) or occurs_in_domain(T.range_type(), name)
+    return any(occurs_in_domain(a, name) for a in T.args)
+
+
+def non_positive(t, pred, pol=True):
+    """the predicate constant named `pred` occurs in `t` negatively, or where polarity is unknown"""
+    f, args = t.strip_comb()
+    if f.is_const() and f.name == pred:
+        return (not pol) or any(mentions_const(a, pred) for a in args)
+    if t.is_not():
+        return non_positive(t.arg, pred, not pol)
+    if t.is_implies():
+        return non_positive(t.arg1, pred, not pol) or non_positive(t.arg, pred, pol)
+    if t.is_conj() or t.is_disj():
+        return non_positive(t.arg1, pred, pol) or non_positive(t.arg, pred, pol)
+    if (t.is_forall() or t.is_exists()) and t.arg.is_abs():
+        return non_positive(t.arg.body, pred, pol)
+    return mentions_const(t, pred)
+
+
+def mentions_const(t, name):
+    return any(c.name == name for c in t.get_consts())
+
+
+def definitional_hazards(item):
+    """`def.ind`, `def.pred` and `type.ind` items are definitions by their kind (not `.ax`), but
+    nothing checks that they are conservative.  Syntactic signs that an ACCEPTED one is not:
+    two function equations whose left-hand sides overlap while the right-hand sides differ; a
+    recursive call on the very arguments of the left-hand side; an inductive predicate occurring
+    negatively in a premise of its own rule (the generated `_cases` rule then proves anything); a
+    datatype occurring to the left of an arrow in an argument of its own constructor (no set is in
+    bijection with a superset of its function space).  Returns [(class, detail)]."""
+    out = []
+    try:
+        if item.ty == 'def.ind':
+            rules = [(kwire.term_to(r['prop'].lhs), kwire.term_to(r['prop'].rhs)) for r in item.rules]
+            for i in range(len(rules)):
+                li, ri = rules[i]
+                for j in range(i + 1, len(rules)):
+                    lj, rj = sx_rename_vars(rules[j][0], "~"), sx_rename_vars(rules[j][1], "~")
+                    th = sx_term_unify(li, lj)
+                    if th is not None and kwire.canon_term(th(ri)) != kwire.canon_term(th(rj)):
+                        out.append(("overlapping-rules", "rules %d and %d overlap with different right-hand sides" % (i + 1, j + 1)))
+                        break
+                else:
+                    continue
+                break
+            for i, r in enumerate(item.rules):
+                lhs, rhs = r['prop'].lhs, r['prop'].rhs
+                if rhs != lhs and any(sub == lhs for sub in subterms(rhs)):
+                    out.append(("recursive-call-on-same-arguments", "rule %d calls the function on its own left-hand side" % (i + 1)))
+                    break
+        elif item.ty == 'def.pred':
+            for r in item.rules:
+                As, _ = r['prop'].strip_implies()
+                if any(non_positive(A, item.name) for A in As):
+                    out.append(("negative-occurrence", "rule %s uses the predicate negatively in a premise" % r['name']))
+                    break
+        elif item.ty == 'type.ind':
+            for c in item.constrs:
+                argsT, _ = c['type'].strip_type()
+                if any(occurs_in_domain(A, item.name) for A in argsT):
+                    out.append(("non-positive-occurrence", "constructor %s takes an argument with the datatype left of an arrow" % c['name']))
+                    break
+    except Timeout:
+        raise
+    except Exception as e:  # noqa
+        out.append(("hazard-judge-crashed", "%s: %s" % (type(e).__name__, str(e)[:100])))
+    return out
+
+
+def subterms(t):
+    yield t
+    if t.is_comb():
+        yield from subterms(t.fun)
+        yield from subterms(t.arg)
+    elif t.is_abs():
+        yield from subterms(t.body)
+
+
 def declared_constants(names):
     """(name, type-sexp, theory, item-ty) of every constant the loaded items declare, except the
     generic declarations of overloaded constants"""
@@ -1227,8 +1594,10 @@ def run_generated(ctx, ncases):
     cases = list(corpus_items(ctx))
     for _ in range(ncases):
         r = rng.random()
-        if r < 0.50:
+        if r < 0.44:
             cases.append(g.item())
+        elif r < 0.50:
+            cases.append(adversarial_item(rng, g))
         elif r < 0.55:
             cases.append(related_selfref_item(rng, g))
         elif r < 0.70:
@@ -1241,18 +1610,35 @@ def run_generated(ctx, ncases):
             cases.append(inductive_item(rng, g))
         elif r < 0.96:
             cases.append(long_item(rng, g))
-        elif r < 0.99:
+        elif r < 0.975:
             cases.append(related_selfref_item(rng, g))
-        else:
+        elif r < 0.99:
             cases.append(other_item(rng, g))
+        else:
+            cases.append(adversarial_item(rng, g))
     model_lines, model_owner = [], []
     oracle_lines, oracle_owner = [], []
     results = []
-    for ci, (kind, raw) in enumerate(cases):
+    for ci, case in enumerate(cases):
+        kind, raw = case[0], case[1]
+        before = case[2] if len(case) > 2 else []
         theory.thy = copy.copy(base)
+        decl_here = decl
+        for b in before:            # items of the same file that come first
+            with time_limit(60):
+                rb = ItemRun(b, widths=[]).run()
+            if rb.status == "accepted":
+                decl_here = decl_here + [(e.name, kwire.ty_to(e.T), "(generated)", b['ty']) for e in rb.exts
+                                         if e.is_constant() and not any(x.is_overload() for x in rb.exts)]
+        pre_thy = copy.copy(theory.thy)
         with time_limit(60):
             r = ItemRun(raw).run()
         results.append(r)
+        if r.status == "accepted":
+            for cls, detail in definitional_hazards(r.item) + r.hazards:
+                ctx.violation("generated:%s:%s" % (raw['ty'], cls),
+                              "accepted %s item (%s) is not conservative: %s" % (raw['ty'], kind, detail),
+                              {"stream": "generated", "base": GEN_BASE, "raw": raw, "before": before, "defect": cls, "kind": kind})
         ctx.count("gen:%s:%s" % (kind, r.status))
         ctx.case(("gen", json.dumps(raw, sort_keys=True)), nontrivial=(r.status == "accepted"))
         if ci < 3 or (r.status == "accepted" and ci % 97 == 0):
@@ -1260,11 +1646,11 @@ def run_generated(ctx, ncases):
         key_raw = json.dumps(raw, sort_keys=True, ensure_ascii=False)
         for cls, detail in r.defects:
             ctx.violation(gen_key(raw, cls, detail), "generated %s item (%s): %s" % (raw['ty'], kind, detail),
-                          {"stream": "generated", "base": GEN_BASE, "raw": raw, "defect": cls, "kind": kind})
+                          {"stream": "generated", "base": GEN_BASE, "raw": raw, "before": before, "defect": cls, "kind": kind})
         if raw['ty'] != 'def':
             continue
         # ---- definitions: model verdict on what the parser produced
-        theory.thy = copy.copy(base)
+        theory.thy = copy.copy(pre_thy)
         with time_limit(60):
             parsed = parse_def_prop(raw)
         if parsed is None:
@@ -1282,7 +1668,7 @@ def run_generated(ctx, ncases):
                               "accepted `def` item violates the side condition '%s': %s :: %s, %s" % (cond, raw['name'], raw['type'], raw['prop']),
                               {"stream": "generated", "base": GEN_BASE, "raw": raw, "defect": "not-a-definition", "kind": kind})
             # newness: the instance must not overlap a declared one
-            for (dn, dT, dth, dty) in decl:
+            for (dn, dT, dth, dty) in decl_here:
                 if dn == raw['name'] and sx_unify(T_s, rename_apart(dT, "~")) is not None:
                     ctx.violation("redeclared-instance:%s" % raw['name'],
                                   "definition of %s :: %s accepted although %s :: %s is declared in theory %s (%s)" % (
@@ -1347,6 +1733,9 @@ def gen_key(raw, cls, detail):
     """key of a defect found on a generated item: item kind, defect class and the first words of
     the failure (no generated names)"""
     import re
+    if cls == "display-rejected":      # class-level: which exception get_display raises
+        m = re.search(r"raises (\w+)", detail)
+        return "generated:%s:%s:%s" % (raw['ty'], cls, m.group(1) if m else "?")
     d = re.sub(r"\b(c|dt|K|fn|pr|ac|oc|ax|th|at|bl|Constructor|long_th)\d+\b", "N", detail)
     d = re.sub(r"pr\d+_r\d+|N_rN|N_r\d+", "N", d)
     return "generated:%s:%s:%s" % (raw['ty'], cls, d[:80])
@@ -1402,7 +1791,10 @@ def run(ctx):
         "(valid and malformed), axioms, theorems with attributes, constants, types, headers; a case = one item, non-trivial = accepted; distinct by "
         "the JSON text. Added: definitions whose right-hand side negates the constant at a type related to its own (type variables permuted, "
         "merged, renamed, partially instantiated, wrapped); items with rules / statements / constructor lists of 60-300 characters; every "
-        "accepted item's editor round trip under line_length in {120, 80, 60, 40} x unicode (library theorems at quick tier: two settings each).")
+        "accepted item's editor round trip under line_length in {120, 80, 60, 40} x unicode (library theorems at quick tier: two settings each). "
+        "Added (audit): unchecked definitional kinds with overlapping / non-exhaustive / non-terminating equations, negative premises, conclusions "
+        "that are not the predicate, non-positive constructor arguments; re-declared types, constants, theorem names (also as two-item sequences); "
+        "looping / unknown / repeated attributes; rejected items through both round trips.")
     ok = ctx.lean_props(["Holpy.C11.Props"], exes=[EXE])
     if ctx.tier == "thorough" and ok:
         ctx.lean_check_modules(["Holpy.C11.Props"])
@@ -1469,7 +1861,12 @@ def replay(ctx, rp):
         return res.status != "accepted" or bool(res.defects)
     basic.load_theory(r.get("base", GEN_BASE))
     raw = r["raw"]
+    for b in r.get("before", []):
+        ItemRun(b, widths=[]).run()
     res = ItemRun(raw).run()
+    if res.status == "accepted" and r.get("defect") in [c for c, _ in definitional_hazards(res.item) + res.hazards]:
+        print(definitional_hazards(res.item) + res.hazards)
+        return True
     print(res.status, res.err, res.defects)
     cls = r.get("defect")
     if cls == "not-a-definition":
@@ -1489,26 +1886,31 @@ def replay(ctx, rp):
 
 
 MANIFEST = {
-    "text": "Lean theorems about the model `defOK` of the (fixed) side conditions of Definition.parse: for an accepted definition of a new constant, in "
-            "every finite standard model and for every interpretation of the old signature there is a value of the new constant (the curried function "
-            "given by the right-hand side) under which the defining equation holds for all values of all variables (def_conservative); the same for ALL "
-            "type instances of the equation simultaneously, changing the valuation only at the instances of the constant's type "
-            "(def_conservative_poly, from def_conservative_family); a satisfiable set of sequents stays satisfiable with the equation added "
-            "(def_keeps_consistency); the generated theorem passes check_thm_type (def_ext_welltyped); one counterexample theorem per side condition "
-            "(self reference, self reference at a type with permuted type variables, extra type variable, free variable, non-variable argument: "
-            "no interpretation exists; repeated argument: the interpretation is not unique). defOK is tied to server/items.py by differential execution on generated item descriptions (both sides see "
-            "the parser's output); every accepted generated definition is checked against the side conditions directly and searched for a finite "
-            "counter-model over several type instances with the same `sem`; every item of the 43 library files and generated datatypes / recursive "
-            "functions / inductive predicates / axioms / theorems / constants are run through parse_item, get_extension (checked with "
-            "Theory.check_type/check_term and Thm.check_thm_type over the extended theory) and both round trips as monitor.check_theory compares them; the editor round trip is repeated under the "
-            "ambient settings app/ide.py uses (line_length 120/80/60/40, unicode on/off), also on generated items with long rules and statements.",
+    "text": "PROVED (Lean, about the hand-written model `defOK` of the side conditions Definition.parse checks; only items of kind `def`, i.e. "
+            "equations c x1..xn = rhs, n >= 0): in every finite standard model and for every interpretation of the old constants the new constant has a "
+            "value (the curried function given by rhs) under which the equation holds for all values of all variables (def_conservative); one valuation, "
+            "changed only at the type instances of the constant, satisfies all type instances of the equation (def_conservative_family, "
+            "def_conservative_poly); sequents that do not mention the constant stay satisfied together with the equation (def_keeps_consistency, "
+            "def_keeps_consistency_poly); for a constant definition c = t a sequent over the old signature that is Valid with the equation as a "
+            "hypothesis is Valid without it (const_def_eliminable); the generated theorem passes check_thm_type, and checkThmTypeSig when the logical "
+            "constants are used at their types (def_ext_welltyped); six counterexample theorems (self reference, at a type with permuted type "
+            "variables, extra type variable, free variable, non-variable argument: no interpretation; repeated argument: not unique). NOT proved: "
+            "anything about def.ind / def.pred / type.ind (recursive functions, inductive predicates, datatypes) or the .ax kinds, infinite models, "
+            "Theory.check_term, uniqueness of the interpretation. COMPARED on every run (real code, generated and library inputs): Definition.parse's "
+            "accept/reject against defOK on the parser's output; every accepted generated `def` against the side conditions directly (own unifier) and "
+            "against a finite counter-model search over groups of type instances (Lean `sem`); re-declaration of a constant instance; for items of "
+            "EVERY kind (all items of the 43 library files, generated valid and malformed ones, sequences with name clashes, long rules): "
+            "get_extension checked with Theory.check_type/check_term and Thm.check_thm_type over the extended theory; parse_item(export_json()) and "
+            "parse_edit(get_display()) judged by Item.__eq__ AND equality of export_json() and get_display() of the two items, the editor form also "
+            "under line_length 120/80/60/40 and unicode on/off; rejected items keep their text and error through both round trips; syntactic hazards of "
+            "accepted def.ind / def.pred / type.ind items (overlapping equations, recursive call on the same arguments, negative occurrence, "
+            "non-positive constructor argument, type declared twice) are reported (known findings).",
     "note": "Trusted: Lean kernel, axioms propext/Classical.choice/Quot.sound; the parser/printer (C07/C08) whose output is the object of the side "
-            "conditions; the hand model's fidelity is as good as the generated items exercise it. Fun/Inductive/Datatype/Axiom/Constant items are "
-            "axiomatic: no conservativity claim, only well-typed extensions and round trips. For overloaded constants newness is the instance check "
-            "added to add_term_sig (fix C11-2); generic axioms about an overloaded constant constrain later instances by design. `is_apart` is a "
-            "sufficient test for 'no common instance' (constructor clash), so some harmless definitions are rejected. Uniqueness of the interpretation "
-            "(where distinctness of the arguments is needed) is shown only by the counterexample, not as a theorem.",
-    "design_ref": "DESIGN.md 4/C11",
+            "conditions; the hand model's fidelity is as good as the generated items exercise it. A rejected library item is not a violation (the "
+            "property does not say library items are accepted): it is counted and reported as a stream that no longer checks. For overloaded constants "
+            "newness is the instance check of add_term_sig; generic axioms about an overloaded constant constrain later instances by design. "
+            "`is_apart` is a sufficient test for 'no common instance' (constructor clash), so some harmless definitions are rejected.",
+    "design_ref": "DESIGN.md 4/C11, 8.15",
 }
 FINDINGS = [
     {"status": "fixed", "key": "non-conservative:def-side-conditions", "commit": "6484ad7",
@@ -1521,4 +1923,25 @@ FINDINGS = [
      "what": "Datatype.parse accepted constructors whose type does not end in the datatype, or with fewer/more/repeated argument names than arguments: "
              "get_extension produced ill-typed theorems, raised, or the editor form failed with IndexError; "
              "an argument named P clashed with the induction predicate (TermException in get_extension)"},
+    {"status": "fixed", "key": "generated:def:edit-roundtrip-rejected", "commit": "fixes/C11-4.patch",
+     "what": "the editor form of a rejected def / def.ind / def.pred / def.ax item gave the type as a list (display_raw), so parse_edit of it failed "
+             "with TypeError in parse_type instead of reporting the item's error"},
+    {"status": "known", "key": "generated:def.ind:overlapping-rules",
+     "what": "def.ind (a definition by kind, not .ax) accepts equations whose left-hand sides overlap with different right-hand sides, e.g. "
+             "fun f :: nat => nat => bool, f x 0 = true, f 0 y = false (f 0 0 is both); no overlap / termination check exists"},
+    {"status": "known", "key": "generated:def.ind:recursive-call-on-same-arguments",
+     "what": "def.ind accepts f n = Suc (f n) (also ~(f n), f n + 1): no termination check exists"},
+    {"status": "known", "key": "generated:def.pred:negative-occurrence",
+     "what": "def.pred accepts a rule with the predicate negative in a premise, e.g. ((p n) --> false) --> p n; the generated p_cases rule then "
+             "proves any P from p n: no positivity check exists"},
+    {"status": "known", "key": "generated:type.ind:non-positive-occurrence",
+     "what": "type.ind accepts a constructor K :: (dt => bool) => dt (also ((dt => nat) => nat) => dt, (dt => bool) list => dt); the generated "
+             "injectivity theorem has no standard model (Cantor): no positivity check exists"},
+    {"status": "known", "key": "generated:type.ind:redeclared-type",
+     "what": "type.ind with the name of an existing type (a second datatype dt, or nat / list again, also with another arity) is accepted: "
+             "add_type_sig overwrites silently and the new induction theorem joins or replaces the old one (a non-mutating Datatype.parse would be "
+             "needed for a check, because monitor.check_theory re-parses in a theory that already contains the type)"},
+    {"status": "known", "key": "generated:type.ind:display-rejected:AttributeError",
+     "what": "Datatype.get_display of a REJECTED datatype raises AttributeError ('str' object has no attribute 'strip_type': the constructors are "
+             "kept as given), so export_web has no display / editor form for it"},
 ]
